@@ -547,433 +547,354 @@ pub(crate) fn mapper_step_one<'a>(
     }
 }
 
-// ------------------------------------------------------------------ Tier P (builder through record injection)
-use crate::mapping::{LineMapping, ParseError};
-use crate::verif_support::inject;
 
-fn rec_class(original: &'static str, obfuscated: &'static str) -> inject::Item {
-    Ok(ProguardRecord::Class { original, obfuscated })
+// ------------------------------------------------------------------ Tier P: the real builder on an injected record stream
+use crate::mapping::LineMapping;
+use crate::verif_support::inject::{self, bad, cls, fld, hdr, mth, Item};
+use crate::verif_support::pspec;
+
+pub(crate) const LIM: usize = 0xffff_ffff;
+
+/// Exact model of `extract_class_name` (text after the last '.', up to the first
+/// '$'), with plain byte loops instead of `str::split` (whose memchr machinery
+/// explodes under CBMC). Proved equal to the real function by `s_extract_class_name_*`.
+pub(crate) fn extract_class_name_model(full_path: &str) -> Option<&str> {
+    Some(spec::outer_simple_name(full_path))
 }
 
-fn rec_method(original: &'static str, obfuscated: &'static str, arguments: &'static str, original_class: Option<&'static str>, lm: Option<LineMapping>) -> inject::Item {
-    Ok(ProguardRecord::Method { ty: "void", original, obfuscated, arguments, original_class, line_mapping: lm })
-}
-
-fn any_lm() -> Option<LineMapping> {
-    if kani::any() {
-        let s: usize = kani::any();
-        let e: usize = kani::any();
-        kani::assume(s > 0 && e > 0);
-        let os: Option<usize> = if kani::any() { Some(kani::any()) } else { None };
-        let oe: Option<usize> = if os.is_some() && kani::any() { Some(kani::any()) } else { None };
-        Some(LineMapping { startline: s, endline: e, original_startline: os, original_endline: oe })
-    } else {
-        None
-    }
-}
-
-#[kani::proof]
-#[kani::stub(crate::mapping::parse_proguard_record, inject::parse_stub)]
-#[kani::stub(crate::mapper::extract_class_name, extract_class_name_stub)]
-#[kani::unwind(6)]
-fn p_mapper_build_2() {
-    let recs: [inject::Item; 2] = [rec_class("A", "a"), rec_method("f", "m", "", None, any_lm())];
+/// Build the real mapper from the stream and compare a line-based query,
+/// the method lookup and the class lookup against the stream-level spec.
+fn p_check_lines<const N: usize>(recs: [Item; N], param_index: bool, class: &'static str, method: &'static str) {
     let src = inject::set(&recs);
-    let mapper = ProguardMapper::new(ProguardMapping::new(src));
-    assert!(mapper.remap_class("a") == Some("A"));
+    let mapper = ProguardMapper::new_with_param_mapping(ProguardMapping::new(src), param_index);
     let line: usize = kani::any();
-    let mut it = mapper.remap_frame(&StackFrame::new("a", "m", line));
-    let f = it.next();
-    kani::cover!(f.is_some());
-    kani::cover!(f.is_none());
+    let frame_file = if kani::any() { Some(FRAME_FILE) } else { None };
+    let mut exp = [pspec::NO_EXP; N];
+    let n = pspec::expected_with_lines(&recs, class, method, line, frame_file, &mut exp);
+    let frame = StackFrame { class, method, line, file: frame_file, parameters: None };
+    let mut it = mapper.remap_frame(&frame);
+    let mut k = 0;
+    while k < N {
+        let got = it.next();
+        if k < n {
+            let e = exp[k].unwrap();
+            let g = match got {
+                Some(g) => g,
+                None => panic!("C01: expected frame missing (builder)"),
+            };
+            assert!(pspec::str_eq(g.class, e.class), "C01: class (builder)");
+            assert!(pspec::str_eq(g.method, e.method), "C01: method (builder)");
+            if let Some(l) = e.line {
+                assert!(g.line as u64 == l, "C01: original line (builder)");
+            }
+            assert!(pspec::opt_str_eq(g.file, e.file), "C01: file (builder)");
+            assert!(g.parameters.is_none());
+        } else {
+            assert!(got.is_none(), "C01: extra frame (builder)");
+        }
+        k += 1;
+    }
+    assert!(it.next().is_none(), "C01: extra frame at the end (builder)");
+    // C04: method and class lookup
+    let want_m = pspec::expected_method(&recs, class, method);
+    match (mapper.remap_method(class, method), want_m) {
+        (None, None) => {}
+        (Some((c, m)), Some((wc, wm))) => assert!(pspec::str_eq(c, wc) && pspec::str_eq(m, wm), "C04: remap_method answer (builder)"),
+        _ => panic!("C04: remap_method answers iff unambiguous (builder)"),
+    }
+    let want_c = pspec::class_of(&recs, class).map(|x| x.1);
+    assert!(pspec::opt_str_eq(mapper.remap_class(class), want_c), "C04: remap_class (builder)");
+    kani::cover!(n == 0, "no frame expected");
+    kani::cover!(n >= 1, "at least one frame expected");
     core::mem::forget(mapper);
 }
 
 #[kani::proof]
-#[kani::stub(crate::mapping::parse_proguard_record, inject::parse_stub)]
-#[kani::unwind(6)]
-fn p_dbg_iter() {
-    let recs: [inject::Item; 2] = [rec_class("A", "a"), rec_method("f", "m", "", None, any_lm())];
+#[kani::stub(crate::mapper::extract_class_name, extract_class_name_model)]
+#[kani::unwind(8)]
+fn p_mapper_lines_1c3m() {
+    let recs = [
+        cls("A", "a"),
+        mth("f", "m", "", None, inject::any_lm(LIM)),
+        mth("g", "m", "", Some(FOREIGN_CLASS), inject::any_lm(LIM)),
+        mth("h", "n", "", None, inject::any_lm(LIM)),
+    ];
+    p_check_lines(recs, false, "a", "m");
+}
+
+
+#[kani::proof]
+#[kani::stub(crate::mapper::extract_class_name, extract_class_name_model)]
+#[kani::unwind(8)]
+fn p_x5() {
+    let recs = [
+        cls("A", "a"),
+        mth("f", "m", "", None, inject::NO_LM),
+        mth("g", "o", "", Some(FOREIGN_CLASS), inject::NO_LM),
+        mth("h", "n", "", None, inject::NO_LM),
+    ];
     let src = inject::set(&recs);
-    let mapping = ProguardMapping::new(src);
-    let mut it = mapping.iter();
-    let a = it.next();
-    assert!(matches!(a, Some(Ok(ProguardRecord::Class { .. }))));
-    let b = it.next();
-    assert!(matches!(b, Some(Ok(ProguardRecord::Method { .. }))));
-    assert!(it.next().is_none());
+    let mapper = ProguardMapper::new_with_param_mapping(ProguardMapping::new(src), false);
+    core::mem::forget(mapper);
 }
 
 #[kani::proof]
-#[kani::stub(crate::mapping::parse_proguard_record, inject::parse_stub)]
-#[kani::unwind(6)]
-fn p_dbg_peek() {
+#[kani::stub(crate::mapper::extract_class_name, extract_class_name_model)]
+#[kani::unwind(8)]
+fn p_x1() {
+    let recs = [
+        cls("A", "a"),
+        mth("f", "m", "", None, inject::NO_LM),
+        mth("g", "m", "", Some(FOREIGN_CLASS), inject::NO_LM),
+        mth("h", "n", "", None, inject::NO_LM),
+    ];
+    p_check_lines(recs, false, "a", "m");
+}
+
+fn expensive() -> u32 {
+    let mut s = 0u32;
+    let mut i = 0u32;
+    while i < 200 {
+        s = s.wrapping_add(i);
+        i += 1;
+    }
+    s
+}
+#[kani::proof]
+#[kani::unwind(202)]
+fn p_q1() {
     use crate::verif_support::util::OkOnlyExt;
-    let recs: [inject::Item; 2] = [rec_class("A", "a"), rec_method("f", "m", "", None, any_lm())];
+    let recs = [cls("A", "a"), mth("f", "m", "", None, inject::NO_LM)];
     let src = inject::set(&recs);
     let mapping = ProguardMapping::new(src);
     let mut it = mapping.iter().verif_ok_only().peekable();
-    let a = it.next();
-    assert!(matches!(a, Some(ProguardRecord::Class { .. })));
-    assert!(matches!(it.peek(), Some(ProguardRecord::Method { .. })));
-    let b = it.next();
-    assert!(matches!(b, Some(ProguardRecord::Method { .. })));
-    assert!(it.peek().is_none());
-    assert!(it.next().is_none());
-}
-
-#[kani::proof]
-#[kani::stub(crate::mapping::parse_proguard_record, inject::parse_stub)]
-#[kani::unwind(6)]
-fn p_dbg_build1() {
-    let recs: [inject::Item; 1] = [rec_class("A", "a")];
-    let src = inject::set(&recs);
-    let mapper = ProguardMapper::new(ProguardMapping::new(src));
-    assert!(mapper.remap_class("a") == Some("A"));
-    core::mem::forget(mapper);
-}
-
-#[kani::proof]
-#[kani::unwind(6)]
-fn p_dbg_manual() {
-    let mut classes = HashMap::new();
-    let mut class = ClassMapping { original: "", obfuscated: "", file_name: None, members: HashMap::new() };
-    let mut unique_methods: HashSet<(&str, &str, &str)> = HashSet::new();
-    if !class.original.is_empty() {
-        classes.insert(class.obfuscated, class);
+    let r = it.next();
+    if let Some(ProguardRecord::Method { .. }) = r {
+        assert!(expensive() == 1);
     }
-    class = ClassMapping { original: "A", obfuscated: "a", file_name: None, members: HashMap::new() };
-    unique_methods.clear();
-    if !class.original.is_empty() {
-        classes.insert(class.obfuscated, class);
+}
+#[kani::proof]
+#[kani::unwind(202)]
+fn p_q2() {
+    let recs = [cls("A", "a"), mth("f", "m", "", None, inject::NO_LM)];
+    let r = recs[0].record();
+    if let Some(ProguardRecord::Method { .. }) = r {
+        assert!(expensive() == 1);
     }
-    let mapper = ProguardMapper { classes };
-    assert!(mapper.remap_class("a") == Some("A"));
-    core::mem::forget(mapper);
+}
+#[kani::proof]
+#[kani::unwind(202)]
+fn p_q3() {
+    let recs = [cls("A", "a"), mth("f", "m", "", None, inject::NO_LM)];
+    if recs[0].kind == inject::K_METHOD {
+        assert!(expensive() == 1);
+    }
 }
 
 #[kani::proof]
-#[kani::stub(crate::mapping::parse_proguard_record, inject::parse_stub)]
-#[kani::unwind(6)]
-fn p_dbg_manual2() {
+#[kani::unwind(202)]
+fn p_q4() {
     use crate::verif_support::util::OkOnlyExt;
-    let recs: [inject::Item; 1] = [rec_class("A", "a")];
+    let recs = [cls("A", "a"), mth("f", "m", "", None, inject::NO_LM), mth("g", "o", "", None, inject::NO_LM)];
     let src = inject::set(&recs);
     let mapping = ProguardMapping::new(src);
-    let mut classes = HashMap::new();
-    let mut class = ClassMapping { original: "", obfuscated: "", file_name: None, members: HashMap::new() };
-    let mut unique_methods: HashSet<(&str, &str, &str)> = HashSet::new();
     let mut records = mapping.iter().verif_ok_only().peekable();
+    let mut n = 0;
     while let Some(record) = records.next() {
         match record {
-            ProguardRecord::Class { original, obfuscated } => {
-                if !class.original.is_empty() {
-                    classes.insert(class.obfuscated, class);
-                }
-                class = ClassMapping { original, obfuscated, file_name: None, members: HashMap::new() };
-                unique_methods.clear();
+            ProguardRecord::Class { .. } => {
+                if n != 0 { assert!(expensive() == 1); }
+            }
+            ProguardRecord::Method { .. } => {
+                if n == 0 { assert!(expensive() == 1); }
+                n += 1;
+                continue;
             }
             _ => {}
         }
+        n += 1;
     }
-    if !class.original.is_empty() {
-        classes.insert(class.obfuscated, class);
-    }
-    let mapper = ProguardMapper { classes };
-    assert!(mapper.remap_class("a") == Some("A"));
-    core::mem::forget(mapper);
 }
 
-macro_rules! dbg3 {
-    ($name:ident, $peek:expr, $cond:expr, $uniq:expr) => {
 #[kani::proof]
-#[kani::stub(crate::mapping::parse_proguard_record, inject::parse_stub)]
-#[kani::unwind(6)]
-fn $name() {
+#[kani::unwind(202)]
+fn p_q5() {
     use crate::verif_support::util::OkOnlyExt;
-    let recs: [inject::Item; 1] = [rec_class("A", "a")];
+    let recs = [cls("A", "a"), mth("f", "m", "", None, inject::NO_LM), mth("g", "o", "", None, inject::NO_LM)];
     let src = inject::set(&recs);
     let mapping = ProguardMapping::new(src);
-    let mut classes = HashMap::new();
-    let mut class = ClassMapping { original: "", obfuscated: "", file_name: None, members: HashMap::new() };
-    let mut unique_methods: HashSet<(&str, &str, &str)> = HashSet::new();
-    let mut records = mapping.iter().verif_ok_only();
+    let mut records = mapping.iter().verif_ok_only().peekable();
+    let mut n = 0;
     while let Some(record) = records.next() {
         match record {
-            ProguardRecord::Class { original, obfuscated } => {
-                if $cond {
-                if !class.original.is_empty() {
-                    classes.insert(class.obfuscated, class);
-                }
-                }
-                class = ClassMapping { original, obfuscated, file_name: None, members: HashMap::new() };
-                if $uniq { unique_methods.clear(); }
+            ProguardRecord::Class { .. } => {
+                if n != 0 { assert!(expensive() == 1); }
+            }
+            ProguardRecord::Method { .. } => {
+                if n == 0 { assert!(expensive() == 1); }
             }
             _ => {}
         }
+        n += 1;
     }
-    if !class.original.is_empty() {
-        classes.insert(class.obfuscated, class);
-    }
-    let mapper = ProguardMapper { classes };
-    assert!(mapper.remap_class("a") == Some("A"));
-    core::mem::forget(mapper);
 }
-    };
-}
-dbg3!(p_dbg3_a, false, true, true);
-dbg3!(p_dbg3_b, false, false, true);
-dbg3!(p_dbg3_c, false, false, false);
-
 #[kani::proof]
-#[kani::unwind(6)]
-fn p_dbg4() {
-    let recs: [ProguardRecord<'static>; 1] = [ProguardRecord::Class { original: "A", obfuscated: "a" }];
-    let mut classes = HashMap::new();
-    let mut class = ClassMapping { original: "", obfuscated: "", file_name: None, members: HashMap::new() };
-    let mut records = recs.iter().cloned();
-    while let Some(record) = records.next() {
-        match record {
-            ProguardRecord::Class { original, obfuscated } => {
-                class = ClassMapping { original, obfuscated, file_name: None, members: HashMap::new() };
-            }
-            _ => {}
-        }
-    }
-    if !class.original.is_empty() {
-        classes.insert(class.obfuscated, class);
-    }
-    let mapper = ProguardMapper { classes };
-    assert!(mapper.remap_class("a") == Some("A"));
-    core::mem::forget(mapper);
-}
-
-#[kani::proof]
-#[kani::unwind(6)]
-fn p_dbg5() {
-    let mut classes = HashMap::new();
-    let mut class = ClassMapping { original: "", obfuscated: "", file_name: None, members: HashMap::new() };
-    let mut i = 0;
-    while i < 1 {
-        class = ClassMapping { original: "A", obfuscated: "a", file_name: None, members: HashMap::new() };
-        i += 1;
-    }
-    if !class.original.is_empty() {
-        classes.insert(class.obfuscated, class);
-    }
-    let mapper = ProguardMapper { classes };
-    assert!(mapper.remap_class("a") == Some("A"));
-    core::mem::forget(mapper);
-}
-
-#[kani::proof]
-#[kani::stub(crate::mapping::parse_proguard_record, inject::parse_stub)]
-#[kani::unwind(6)]
-fn p_dbg_iter2() {
-    let recs: [inject::Item; 1] = [rec_class("A", "a")];
+#[kani::unwind(202)]
+fn p_q6() {
+    use crate::verif_support::util::OkOnlyExt;
+    let recs = [cls("A", "a"), mth("f", "m", "", None, inject::NO_LM), mth("g", "o", "", None, inject::NO_LM)];
     let src = inject::set(&recs);
     let mapping = ProguardMapping::new(src);
-    let mut it = mapping.iter();
-    match it.next() {
-        Some(Ok(ProguardRecord::Class { original, obfuscated })) => {
-            assert!(original.len() == 1);
-            assert!(original == "A" && obfuscated == "a");
-        }
-        _ => panic!("no"),
-    }
+    let mut records = mapping.iter().verif_ok_only().peekable();
+    let r1 = records.next();
+    if let Some(ProguardRecord::Method { .. }) = r1 { assert!(expensive() == 1); }
+    let r2 = records.next();
+    if let Some(ProguardRecord::Class { .. }) = r2 { assert!(expensive() == 1); }
+    let r3 = records.next();
+    if let Some(ProguardRecord::Class { .. }) = r3 { assert!(expensive() == 1); }
 }
 
 #[kani::proof]
-#[kani::stub(crate::mapping::parse_proguard_record, inject::parse_stub)]
-#[kani::unwind(6)]
-fn p_dbg6() {
-    let recs: [inject::Item; 1] = [rec_class("A", "a")];
-    let src = inject::set(&recs);
-    let mapping = ProguardMapping::new(src);
-    let mut class = ClassMapping { original: "", obfuscated: "", file_name: None, members: HashMap::new() };
-    let mut records = mapping.iter();
-    while let Some(record) = records.next() {
-        match record {
-            Ok(ProguardRecord::Class { original, obfuscated }) => {
-                class = ClassMapping { original, obfuscated, file_name: None, members: HashMap::new() };
-            }
-            _ => {}
-        }
-    }
-    assert!(class.original == "A");
-    core::mem::forget(class);
+#[kani::unwind(202)]
+fn p_q7() {
+    let recs = [cls("A", "a"), mth("f", "m", "", None, inject::NO_LM), mth("g", "o", "", None, inject::NO_LM)];
+    let it = unsafe { &*recs.as_ptr().add(1) };
+    if it.kind == inject::K_CLASS { assert!(expensive() == 1); }
 }
-
 #[kani::proof]
-#[kani::stub(crate::mapping::parse_proguard_record, inject::parse_stub)]
-#[kani::unwind(6)]
-fn p_dbg7() {
-    let recs: [inject::Item; 1] = [rec_class("A", "a")];
-    let src = inject::set(&recs);
-    let mapping = ProguardMapping::new(src);
-    let mut orig = "";
-    let mut records = mapping.iter();
-    while let Some(record) = records.next() {
-        match record {
-            Ok(ProguardRecord::Class { original, obfuscated }) => {
-                orig = original;
-            }
-            _ => {}
-        }
-    }
-    assert!(orig == "A");
+#[kani::unwind(202)]
+fn p_q8() {
+    let recs = [cls("A", "a"), mth("f", "m", "", None, inject::NO_LM), mth("g", "o", "", None, inject::NO_LM)];
+    let it = &recs[1];
+    if it.kind == inject::K_CLASS { assert!(expensive() == 1); }
 }
-
 #[kani::proof]
-#[kani::unwind(6)]
-fn p_dbg8() {
-    let recs: [inject::Item; 1] = [rec_class("A", "a")];
-    let src = inject::set(&recs);
-    let mapping = ProguardMapping::new(src);
-    let mut class = ClassMapping { original: "", obfuscated: "", file_name: None, members: HashMap::new() };
-    let mut records = mapping.iter();
-    while let Some(record) = records.next() {
-        match record {
-            Ok(ProguardRecord::Class { original, obfuscated }) => {
-                class = ClassMapping { original, obfuscated, file_name: None, members: HashMap::new() };
-            }
-            _ => {}
-        }
-    }
-    assert!(class.original == "A");
-    core::mem::forget(class);
-}
-
-#[kani::proof]
-#[kani::unwind(6)]
-fn p_v1() {
-    // Result items, local iterator, no injection
-    let recs: [inject::Item; 1] = [rec_class("A", "a")];
-    let mut class = ClassMapping { original: "", obfuscated: "", file_name: None, members: HashMap::new() };
-    let mut records = recs.iter().cloned();
-    while let Some(record) = records.next() {
-        match record {
-            Ok(ProguardRecord::Class { original, obfuscated }) => {
-                class = ClassMapping { original, obfuscated, file_name: None, members: HashMap::new() };
-            }
-            _ => {}
-        }
-    }
-    assert!(class.original == "A");
-    core::mem::forget(class);
-}
-
-#[kani::proof]
-#[kani::unwind(6)]
-fn p_v2() {
-    // injection, but a single call, no loop
-    let recs: [inject::Item; 1] = [rec_class("A", "a")];
-    let src = inject::set(&recs);
-    let mapping = ProguardMapping::new(src);
-    let mut class = ClassMapping { original: "", obfuscated: "", file_name: None, members: HashMap::new() };
-    let mut records = mapping.iter();
-    if let Some(record) = records.next() {
-        match record {
-            Ok(ProguardRecord::Class { original, obfuscated }) => {
-                class = ClassMapping { original, obfuscated, file_name: None, members: HashMap::new() };
-            }
-            _ => {}
-        }
-    }
-    assert!(class.original == "A");
-    core::mem::forget(class);
-}
-
-#[kani::proof]
-#[kani::unwind(6)]
-fn p_v3() {
-    // injection + loop, class has no heap
-    let recs: [inject::Item; 1] = [rec_class("A", "a")];
-    let src = inject::set(&recs);
-    let mapping = ProguardMapping::new(src);
-    let mut class: Vec<u32> = Vec::new();
-    let mut records = mapping.iter();
-    while let Some(record) = records.next() {
-        match record {
-            Ok(ProguardRecord::Class { original, obfuscated }) => {
-                class = Vec::new();
-            }
-            _ => {}
-        }
-    }
-    assert!(class.len() == 0);
-}
-
-#[kani::proof]
-#[kani::unwind(6)]
-fn p_v4() {
-    let recs: [inject::Item; 1] = [rec_class("A", "a")];
+#[kani::unwind(202)]
+fn p_q9() {
+    let recs = [cls("A", "a"), mth("f", "m", "", None, inject::NO_LM), mth("g", "o", "", None, inject::NO_LM)];
     let _src = inject::set(&recs);
-    let mut class: Vec<u32> = Vec::new();
-    let record = inject::item_at(0);
-    match record {
-        Ok(ProguardRecord::Class { original, obfuscated }) => {
-            class = Vec::new();
-        }
-        _ => {}
-    }
-    assert!(class.len() == 0);
+    let mut it = inject::InjectedOk::new(2);
+    let r2 = it.next();
+    if let Some(ProguardRecord::Class { .. }) = r2 { assert!(expensive() == 1); }
 }
 
 #[kani::proof]
-#[kani::unwind(6)]
-fn p_v5() {
-    let recs: [inject::Item; 1] = [rec_class("A", "a")];
-    let mut class: Vec<u32> = Vec::new();
-    let record = recs[0].clone();
-    match record {
-        Ok(ProguardRecord::Class { original, obfuscated }) => {
-            class = Vec::new();
-        }
-        _ => {}
-    }
-    assert!(class.len() == 0);
-}
-
-#[kani::proof]
-#[kani::unwind(6)]
-fn p_v6() {
-    let recs: [inject::Item; 1] = [rec_class("A", "a")];
+#[kani::unwind(202)]
+fn p_q10() {
+    let recs = [cls("A", "a"), mth("f", "m", "", None, inject::NO_LM), mth("g", "o", "", None, inject::NO_LM)];
     let _src = inject::set(&recs);
-    let mut class: Vec<u32> = Vec::new();
-    class = Vec::new();
-    assert!(class.len() == 0);
+    let it = inject::item_at(1);
+    if it.kind == inject::K_CLASS { assert!(expensive() == 1); }
+}
+#[kani::proof]
+#[kani::unwind(202)]
+fn p_q11() {
+    let recs = [cls("A", "a"), mth("f", "m", "", None, inject::NO_LM), mth("g", "o", "", None, inject::NO_LM)];
+    let _src = inject::set(&recs);
+    let it = inject::item_at(1);
+    let r = it.record();
+    if let Some(ProguardRecord::Class { .. }) = r { assert!(expensive() == 1); }
+}
+#[kani::proof]
+#[kani::unwind(202)]
+fn p_q12() {
+    let recs = [cls("A", "a"), mth("f", "m", "", None, inject::NO_LM), mth("g", "o", "", None, inject::NO_LM)];
+    let r = recs[1].record();
+    if let Some(ProguardRecord::Class { .. }) = r { assert!(expensive() == 1); }
 }
 
 #[kani::proof]
-#[kani::unwind(6)]
-fn p_w1() {
-    inject::dbg_total(1);
-    let mut class: Vec<u32> = Vec::new();
-    class = Vec::new();
-    assert!(class.len() == 0);
+#[kani::unwind(202)]
+fn p_d1() {
+    let r = ProguardRecord::Method { ty: "void", original: "f", obfuscated: "m", arguments: "", original_class: None, line_mapping: None };
+    if let ProguardRecord::Class { .. } = r { assert!(expensive() == 1); }
 }
 #[kani::proof]
-#[kani::unwind(6)]
-fn p_w2() {
-    let _s = inject::dbg_dummy(1);
-    let mut class: Vec<u32> = Vec::new();
-    class = Vec::new();
-    assert!(class.len() == 0);
+#[kani::unwind(202)]
+fn p_d2() {
+    let r = Some(ProguardRecord::Method { ty: "void", original: "f", obfuscated: "m", arguments: "", original_class: None, line_mapping: None });
+    if let Some(ProguardRecord::Class { .. }) = r { assert!(expensive() == 1); }
 }
 #[kani::proof]
-#[kani::unwind(6)]
-fn p_w3() {
-    let recs: [inject::Item; 1] = [rec_class("A", "a")];
-    inject::dbg_stream(&recs);
-    let mut class: Vec<u32> = Vec::new();
-    class = Vec::new();
-    assert!(class.len() == 0);
+#[kani::unwind(202)]
+fn p_d3() {
+    let r = Some(ProguardRecord::Method { ty: "void", original: "f", obfuscated: "m", arguments: "", original_class: None, line_mapping: None });
+    match r {
+        None => {}
+        Some(rec) => match rec {
+            ProguardRecord::Class { .. } => { assert!(expensive() == 1); }
+            _ => {}
+        },
+    }
 }
 #[kani::proof]
-#[kani::unwind(6)]
-fn p_w4() {
-    let mut class: Vec<u32> = Vec::new();
-    class = Vec::new();
-    assert!(class.len() == 0);
+#[kani::unwind(202)]
+fn p_d4() {
+    let r = ProguardRecord::Method { ty: "void", original: "f", obfuscated: "m", arguments: "", original_class: None, line_mapping: Some(LineMapping { startline: 1, endline: 2, original_startline: None, original_endline: None }) };
+    if let ProguardRecord::Class { .. } = r { assert!(expensive() == 1); }
+}
+
+#[kani::proof]
+#[kani::unwind(202)]
+fn p_d5() {
+    let r = ProguardRecord::Method { ty: "void", original: "f", obfuscated: "m", arguments: "", original_class: None, line_mapping: None };
+    if let ProguardRecord::Method { obfuscated, .. } = r { if obfuscated.len() != 1 { assert!(expensive() == 1); } }
+}
+#[kani::proof]
+#[kani::unwind(202)]
+fn p_d6() {
+    let r = ProguardRecord::Class { original: "f", obfuscated: "m" };
+    if let ProguardRecord::Class { obfuscated, .. } = r { if obfuscated.len() != 1 { assert!(expensive() == 1); } }
+}
+
+#[kani::proof]
+#[kani::unwind(202)]
+fn p_d7() {
+    let r = ProguardRecord::Method { ty: "void", original: "f", obfuscated: "m", arguments: "", original_class: Some("x"), line_mapping: Some(LineMapping { startline: 1, endline: 2, original_startline: Some(3), original_endline: Some(4) }) };
+    if let ProguardRecord::Method { obfuscated, .. } = r { if obfuscated.len() != 1 { assert!(expensive() == 1); } }
+}
+#[kani::proof]
+#[kani::unwind(202)]
+fn p_d8() {
+    let r = ProguardRecord::Field { ty: "void", original: "f", obfuscated: "m" };
+    if let ProguardRecord::Field { obfuscated, .. } = r { if obfuscated.len() != 1 { assert!(expensive() == 1); } }
+}
+#[kani::proof]
+#[kani::unwind(202)]
+fn p_d9() {
+    let r = ProguardRecord::Header { key: "k", value: Some("mm") };
+    if let ProguardRecord::Header { value, .. } = r { if value.unwrap().len() != 2 { assert!(expensive() == 1); } }
+}
+
+#[repr(C, u8)]
+enum TA { A { x: &'static str }, B { a: &'static str, b: &'static str, c: &'static str, d: &'static str, oc: Option<&'static str> } }
+#[repr(C, u8)]
+enum TB { A { x: &'static str }, B { a: &'static str, lm: Option<LineMapping> } }
+#[repr(C, u8)]
+enum TC { A { x: &'static str }, B { a: &'static str, lm: Option<usize> } }
+#[repr(C, u8)]
+enum TD { A { x: &'static str }, B { a: &'static str, lm: Option<(usize, usize)> } }
+#[kani::proof]
+#[kani::unwind(202)]
+fn p_t1() {
+    let r = TA::B { a: "a", b: "bb", c: "c", d: "d", oc: None };
+    if let TA::B { b, .. } = r { if b.len() != 2 { assert!(expensive() == 1); } }
+}
+#[kani::proof]
+#[kani::unwind(202)]
+fn p_t2() {
+    let r = TB::B { a: "aa", lm: None };
+    if let TB::B { a, .. } = r { if a.len() != 2 { assert!(expensive() == 1); } }
+}
+#[kani::proof]
+#[kani::unwind(202)]
+fn p_t3() {
+    let r = TC::B { a: "aa", lm: None };
+    if let TC::B { a, .. } = r { if a.len() != 2 { assert!(expensive() == 1); } }
+}
+#[kani::proof]
+#[kani::unwind(202)]
+fn p_t4() {
+    let r = TD::B { a: "aa", lm: None };
+    if let TD::B { a, .. } = r { if a.len() != 2 { assert!(expensive() == 1); } }
 }
